@@ -68,6 +68,10 @@ type funcReport struct {
 	Contract  string         `json:"contract_at"`
 }
 
+// sweepAll (GOVC_SWEEP_ALL=1): diagnostic run with the zero-annotation safety sweep on every
+// function under contract - a way to look for candidates, never part of a registered check
+var sweepAll = os.Getenv("GOVC_SWEEP_ALL") == "1"
+
 var (
 	flagRepo    = flag.String("repo", "/repo", "repository root")
 	flagVerif   = flag.String("verif", "/verif", "verif root")
